@@ -17,6 +17,10 @@ import (
 	"sync/atomic"
 
 	sdk "github.com/cosmos/cosmos-sdk/types"
+
+	aoltypes "github.com/medibloc/panacea-core/v2/x/aol/types"
+	didtypes "github.com/medibloc/panacea-core/v2/x/did/types"
+	pnfttypes "github.com/medibloc/panacea-core/v2/x/pnft/types"
 )
 
 var dbgMu sync.Mutex
@@ -36,6 +40,7 @@ type ConcJob struct {
 	Noise   []M         `json:"noise"`
 	Readers int         `json:"readers"`
 	Sweep   bool        `json:"sweep"`
+	SweepTxs []M        `json:"sweepTxs"` // extra transactions whose messages the sweep goroutines validate (message shapes the block history lacks)
 }
 
 func runConcurrent(job *ConcJob, out *bufio.Writer) error {
@@ -149,15 +154,19 @@ func runConcurrent(job *ConcJob, out *bufio.Writer) error {
 	if job.Sweep {
 		for g := 0; g < 4; g++ {
 			wg.Add(1)
+			g := g
 			go func() {
 				defer wg.Done()
-				for {
+				for iter := 0; ; iter++ {
 					select {
 					case <-done:
 						return
 					default:
 					}
-					for _, blk := range job.Blocks {
+					// fresh values in every string field that code might be tempted to memoise (a new key type, topic name, moniker, denom id per iteration
+					// and goroutine): a cache keyed by input and shared without a lock is written on every call, from four goroutines
+					freshProbe(c, g, iter)
+					for _, blk := range append(append([][]M{}, job.Blocks...), job.SweepTxs) {
 						for _, tx := range blk {
 							for _, m := range list(tx, "msgs") {
 								msg, err := c.concMsg(m.(M))
@@ -261,3 +270,36 @@ func cmdConcurrent(args []string) error {
 }
 
 var _ sdk.Context
+
+
+// freshProbe runs the stateless code of the custom modules on messages whose string fields have never been seen by this process.
+func freshProbe(c *Chain, g, iter int) {
+	defer func() { recover() }()
+	tag := fmt.Sprintf("%d-%d", g, iter)
+	a1 := c.Accts["a1"].Bech
+	did := didDict["d1"]
+	vm := &didtypes.VerificationMethod{Id: vmID(did, "k"+tag), Type: "VerifKeyType" + tag, Controller: did, PublicKeyBase58: didKeys["k1"].B58}
+	doc := &didtypes.DIDDocument{Contexts: &didtypes.JSONStringOrStrings{didtypes.ContextDIDV1, "https://ctx.example/" + tag}, Id: did,
+		VerificationMethods: []*didtypes.VerificationMethod{vm}, Authentications: []didtypes.VerificationRelationship{didtypes.NewVerificationRelationship(vm.Id)},
+		Services: []*didtypes.Service{{Id: did + "#svc" + tag, Type: "T" + tag, ServiceEndpoint: "https://e.example/" + tag}}}
+	msgs := []sdk.Msg{
+		&aoltypes.MsgCreateTopicRequest{TopicName: "t" + tag, Description: "d" + tag, OwnerAddress: a1},
+		&aoltypes.MsgAddWriterRequest{TopicName: "t" + tag, Moniker: "m" + tag, Description: tag, WriterAddress: a1, OwnerAddress: a1},
+		&aoltypes.MsgAddRecordRequest{TopicName: "t" + tag, Key: []byte(tag), Value: []byte(tag), WriterAddress: a1, OwnerAddress: a1},
+		&didtypes.MsgCreateDIDRequest{Did: did, Document: doc, VerificationMethodId: vm.Id, Signature: []byte(tag), FromAddress: a1},
+		&didtypes.MsgUpdateDIDRequest{Did: did, Document: doc, VerificationMethodId: vm.Id, Signature: []byte(tag), FromAddress: a1},
+		&pnfttypes.MsgCreateDenomRequest{Id: "n" + tag, Name: "x" + tag, Symbol: "S" + tag, Creator: a1},
+		&pnfttypes.MsgMintPNFTRequest{DenomId: "n" + tag, Id: "i" + tag, Name: "x", Creator: a1},
+	}
+	for _, m := range msgs {
+		func() {
+			defer func() { recover() }()
+			_ = m.ValidateBasic()
+			if lm, ok := m.(interface{ GetSignBytes() []byte }); ok {
+				_ = lm.GetSignBytes()
+			}
+			_ = m.GetSigners()
+		}()
+	}
+	_ = doc.Valid()
+}
